@@ -7,10 +7,17 @@ from vlib import Broken
 DRIVER = os.path.join(vlib.VERIF, "harness", "scm", "core-driver.scm")
 
 
-def run_batch(build, sc, progs, label, extra_defs="", timeout=120):
-    """progs: list of (id, node).  Returns {id: {"status","out"}}; programs that did not finish are missing."""
+def run_batch(build, sc, progs, label, extra_defs="", timeout=120, late_defs=""):
+    """progs: list of (id, node).  Returns {id: {"status","out"}}; programs that did not finish are missing.
+    With late_defs every program is first COMPILED as a procedure, then late_defs is evaluated (top-level definitions
+    the programs refer to before they exist), then the programs run."""
     drv = open(DRIVER).read()
-    text = drv.replace(";;PROGRAMS", extra_defs + "\n" + "\n".join("(run-program %d (lambda () %s))" % (i, p.scm) for i, p in progs))
+    if late_defs:
+        body = ("\n".join("(define (prog-%d) %s)" % (i, p.scm) for i, p in progs) + "\n" + late_defs + "\n"
+                + "\n".join("(run-program %d prog-%d)" % (i, i) for i, p in progs))
+    else:
+        body = "\n".join("(run-program %d (lambda () %s))" % (i, p.scm) for i, p in progs)
+    text = drv.replace(";;PROGRAMS", extra_defs + "\n" + body)
     path = sc.file("core_%s.scm" % label)
     with open(path, "w") as f:
         f.write(text)
@@ -32,17 +39,17 @@ def run_batch(build, sc, progs, label, extra_defs="", timeout=120):
     return res, rc, begun
 
 
-def run_all(build, sc, progs, label, extra_defs="", batch=60):
+def run_all(build, sc, progs, label, extra_defs="", batch=60, late_defs=""):
     """Runs all programs in batches in parallel; a batch that crashes or hangs is re-run program by program."""
     chunks = list(vlib.chunks(progs, batch))
 
     def one(ic):
         i, chunk = ic
-        res, rc, begun = run_batch(build, sc, chunk, "%s_%d" % (label, i), extra_defs)
+        res, rc, begun = run_batch(build, sc, chunk, "%s_%d" % (label, i), extra_defs, late_defs=late_defs)
         if len(res) < len(chunk):
             for pid, node in chunk:
                 if pid not in res:
-                    r1, rc1, _ = run_batch(build, sc, [(pid, node)], "%s_%d_%d" % (label, i, pid), extra_defs, timeout=60)
+                    r1, rc1, _ = run_batch(build, sc, [(pid, node)], "%s_%d_%d" % (label, i, pid), extra_defs, timeout=60, late_defs=late_defs)
                     if pid in r1:
                         res[pid] = r1[pid]
                     else:
